@@ -174,6 +174,23 @@ def r17a(ctx, P):
                     nm = nm or const_str(c)
         if len(fl) == 1:
             compared[list(fl)[0]] = (nm, Site(ver, b).loc())
+    if len(hashed) < 5 or not K_c:
+        # collect side taking its (key, path) rows from a table: 2-tuples of one string constant and one SegmentPaths field
+        rows_c = []
+        for g_ in views(col):
+            sg_ = Slice(g_, through_all_calls=True)
+            for b_, i_, st_ in g_.stmts():
+                if st_["k"] == "assign" and st_["rv"]["k"] == "agg" and st_["rv"].get("ak") == "tuple" and len(st_["rv"]["ops"]) == 2:
+                    ks_ = [const_str(c) for o in st_["rv"]["ops"] for c in ([op_const(o)] if op_const(o) else []) if const_str(c)]
+                    fl_ = set()
+                    for o in st_["rv"]["ops"]:
+                        if op_const(o) is None:
+                            fl_ |= sg_.fields(o) & fset
+                    if len(ks_) == 1 and len(fl_) == 1:
+                        rows_c.append((list(fl_)[0], ks_[0], Site(g_, b_, i_).loc()))
+        if len(rows_c) >= 5:
+            hashed = {fl_: (k_, loc_) for fl_, k_, loc_ in rows_c}
+            K_c = {k_ for _, k_, _ in rows_c}
     if len(compared) < 4:
         # table form: `for (label, file, key, bytes) in [(..), ..] { verify(label, file, checksums.get(key), bytes) }` — the position
         # of the key inside a row is the tuple element that reaches the `get`; labels in other positions are not keys
@@ -552,7 +569,9 @@ def r17f(ctx, P):
                   "manifest and creating a fresh one is made by `Storage::exists(manifest path)` and `create_if_missing` alone — not by "
                   "anything read from the file. A damaged manifest (empty, truncated) must make the open fail (Manifest::load), not fall "
                   "into the create arm, which overwrites MANIFEST.json with an empty index")
-    f = P.fn("searchlite_core::index::Index::open_with_storage")
+    f = P.inlined("searchlite_core::index::Index::open_with_storage", depth=2,
+                  keep=("searchlite_core::index::manifest::Manifest::load", "searchlite_core::index::manifest::Manifest::store",
+                        "searchlite_core::index::manifest::Manifest::new"))      # a `load or create` helper is read in place
     if not ctx.anchor(rid, f, "Index::open_with_storage"):
         return
     ctx.saw(f)
